@@ -85,4 +85,27 @@ impl TlsConn {
             }
         }
     }
+    /// Raw bytes over the established session (after an upgrade).
+    pub fn write_raw(&mut self, data: &[u8]) -> Result<(), String> {
+        let mut s = rustls::Stream::new(&mut self.tls, &mut self.tcp);
+        s.write_all(data).map_err(|e| format!("write: {e}"))?;
+        s.flush().map_err(|e| format!("flush: {e}"))
+    }
+    /// Read until `want` bytes have arrived (bytes left over from the response parse first) or the timeout.
+    pub fn read_raw(&mut self, want: usize, timeout: Duration) -> Vec<u8> {
+        let mut out: Vec<u8> = std::mem::take(&mut self.buf);
+        let deadline = Instant::now() + timeout;
+        let mut s = rustls::Stream::new(&mut self.tls, &mut self.tcp);
+        let mut tmp = [0u8; 16384];
+        while out.len() < want && Instant::now() < deadline {
+            s.sock.set_read_timeout(Some(Duration::from_millis(500))).ok();
+            match s.read(&mut tmp) {
+                Ok(0) => break,
+                Ok(n) => out.extend_from_slice(&tmp[..n]),
+                Err(e) if e.kind() == std::io::ErrorKind::WouldBlock || e.kind() == std::io::ErrorKind::TimedOut => {}
+                Err(_) => break,
+            }
+        }
+        out
+    }
 }
